@@ -275,6 +275,13 @@ class Walker:
             else:
                 self.failed_insert.add(h)
                 self.excuse(h, "insert-failed")
+                sp = self.spec.get(h)
+                if sp and sp[2] == "comp":
+                    # the rejected composite still exists (the caller got it back) and the sub-sources it registered before the one that
+                    # failed keep their fds in the poller until it is dropped: those fds count as shared from now on
+                    subs = sp[5:]
+                    for j in range(0, len(subs), 3):
+                        self.fd_users.setdefault(int(subs[j]), set()).add(h)
         elif op == 2:
             if self.cur is not None or self.cur_idle is not None:
                 self.removed_inside = getattr(self, "removed_inside", set())
